@@ -419,3 +419,20 @@ contract("specs.ldapmsg:thm_rt_partial_attribute",
 contract("specs.ldapmsg:thm_rt_present", requires=["tlv_of(e, 2, False, 7, attr_b)"],
          ensures=["id_class(cat(e, tail)) == 2", "id_number(cat(e, tail)) == 7", "not id_constructed(cat(e, tail))",
                   "content_of(cat(e, tail)) == attr_b", "rest_of(cat(e, tail)) == tail"])
+_FE = "cat(e, tail)"
+contract("specs.ldapmsg:lemma_fold_skip",
+         requires=["tlv_of(e, 2, False, num_e, content)", "num_e != num"],
+         ensures=["opt_none(%s, num, acc_none) == opt_none(tail, num, acc_none)" % _FE, "opt_val(%s, num, acc) == opt_val(tail, num, acc)" % _FE,
+                  "opt_bool(%s, num, acc_b) == opt_bool(tail, num, acc_b)" % _FE])
+contract("specs.ldapmsg:lemma_fold_hit",
+         requires=["tlv_of(e, 2, False, num, content)"],
+         ensures=["opt_none(%s, num, acc_none) == opt_none(tail, num, False)" % _FE, "opt_val(%s, num, acc) == opt_val(tail, num, content)" % _FE,
+                  "opt_bool(%s, num, acc_b) == opt_bool(tail, num, bool_den(content))" % _FE])
+_XM = "cat(ite(has_rule, e_rule, empty()), ite(has_type, e_type, empty()), e_val, ite(dn, e_dn, empty()))"
+contract("specs.ldapmsg:thm_rt_ext_match",
+         requires=["implies(has_rule, tlv_of(e_rule, 2, False, 1, rule_b))", "implies(has_type, tlv_of(e_type, 2, False, 2, type_b))",
+                   "tlv_of(e_val, 2, False, 3, val)", "implies(dn, tlv_of(e_dn, 2, False, 4, seq1(255)))"],
+         # the decoder's postcondition (contracts/decode.py, FilterExtensibleMatch.unpack) on these octets gives back the four fields
+         ensures=["opt_none(%s, 1, True) == (not has_rule)" % _XM, "implies(has_rule, opt_val(%s, 1, empty()) == rule_b)" % _XM,
+                  "opt_none(%s, 2, True) == (not has_type)" % _XM, "implies(has_type, opt_val(%s, 2, empty()) == type_b)" % _XM,
+                  "opt_val(%s, 3, empty()) == val" % _XM, "opt_bool(%s, 4, False) == dn" % _XM])
